@@ -1005,7 +1005,7 @@ class PandasModelBase(
         jointype = jointype.lower()
         mp = {
             "full": "outer",
-            "cross": "outer",  # cross new to Pandas 1.2.0 December 2020
+            "cross": "inner",  # merged on a constant scratch column: every pair of rows, none when a side is empty
         }
         try:
             return mp[jointype]
